@@ -200,3 +200,9 @@ ASSUMPTIONS = [
     'R3 drops the diagnostic message of value_null!(..); R4 lifts closure bodies (operand evaluation order and closure wiring dropped); R2 map iteration via .iter()',
     'termination of eval_ternary_equality is not proved (exec_allows_no_decreases_clause)',
 ]
+
+
+_EQ = {'name': 'equality-differential', 'script': 'eqdiff.py', 'args': [], 'functions': ['builders::eval_ternary_equality', 'builders::build_eq', 'builders::build_nq', 'core::list_contains'],
+       'bound': 'every ordered pair from a 41-value alphabet (null, booleans, numbers spelled differently, strings, dates, durations, flat and nested lists, contexts with the key sets {}, {a}, {b}, {a, b} and nested ones) '
+                'under =, != and list contains: 3389 evaluations against a reference written out from DMN 1.3 section 10.3.2.15; also the stand-in when the extraction of eval_ternary_equality is undecided'}
+BOUNDED = {'C01': [_EQ], 'C09': [_EQ]}
